@@ -17,8 +17,14 @@
  */
 
 #include "builtin_null.h"
+#include <blocc/context.h>
 
 namespace bloc
 {
+
+Value& NULLExpression::value(Context& ctx) const
+{
+  return ctx.allocate(Value(Value::type_no_type));
+}
 
 }
